@@ -899,6 +899,7 @@ AnyP::Uri::addRelativePath(const char *relUrl)
         path_.chop(0, lastSlashPos+1);
     }
     path_.append(relUrl, relUrlLength);
+    touch(); // the cached display forms no longer match path_
 }
 
 int
